@@ -28,6 +28,7 @@ structure Plane where
   seq : List PObj                 -- `_seq`
   objs : List Nat                 -- `_objs`
   grid : List (Key × PObj)        -- `_grid`
+  big : List PObj                 -- `_big`: objects covering more than MAXCELLS cells
   gridsize : Int
   x0 : Rat
   y0 : Rat
@@ -36,7 +37,7 @@ structure Plane where
 
 def init (bbox : Rect) (gridsize : Int) : Plane :=
   let (x0, y0, x1, y1) := bbox
-  { seq := [], objs := [], grid := [], gridsize := gridsize,
+  { seq := [], objs := [], grid := [], big := [], gridsize := gridsize,
     x0 := x0, y0 := y0, x1 := x1, y1 := y1 }
 
 /-- `Plane._getrange`: the grid cells a box is filed under / looked up in. -/
@@ -55,21 +56,43 @@ def cell (g : List (Key × PObj)) (k : Key) : List PObj :=
 
 def bboxOf (o : PObj) : Rect := (o.x0, o.y0, o.x1, o.y1)
 
-/-- `Plane.add`. -/
+/-- `xr.start` / `xr.stop` of `drange(v0, v1, d)` (see `Lemmas/Plane.lean: drange_bounds`). -/
+def rStart (v0 : Rat) (d : Int) : Int := pyDiv (pyFloor v0) d
+def rStop (v1 : Rat) (d : Int) : Int := pyDiv (pyFloor (v1 + ((d : Int) : Rat))) d
+
+/-- `nx * ny` of `Plane._cells`: how many grid cells the (clamped) box covers, computed from the range
+bounds without enumerating the cells. -/
+def cellCount (p : Plane) (bbox : Rect) : Nat :=
+  let (x0, y0, x1, y1) := bbox
+  let x0 := min (max p.x0 x0) p.x1
+  let y0 := min (max p.y0 y0) p.y1
+  let x1 := max (min p.x1 x1) p.x0
+  let y1 := max (min p.y1 y1) p.y0
+  (rStop x1 p.gridsize - rStart x0 p.gridsize).toNat * (rStop y1 p.gridsize - rStart y0 p.gridsize).toNat
+
+/-- `Plane._cells`: the cells of a box, or `none` when there are more than `MAXCELLS`. -/
+def cells? (p : Plane) (bbox : Rect) : Option (List Key) :=
+  if PLANE_MAXCELLS < cellCount p bbox then none else some (getrange p bbox)
+
+/-- `Plane.add`: an object covering more than `MAXCELLS` cells goes to `_big`, the others into the grid. -/
 def add (p : Plane) (o : PObj) : Plane :=
-  let ks := getrange p (bboxOf o)
-  { p with
-    grid := ks.foldl (fun g k => g ++ [(k, o)]) p.grid,
+  let p' : Plane :=
+    match cells? p (bboxOf o) with
+    | none => { p with big := p.big ++ [o] }
+    | some ks => { p with grid := ks.foldl (fun g k => g ++ [(k, o)]) p.grid }
+  { p' with
     seq := p.seq ++ [o],
     objs := if o.id ∈ p.objs then p.objs else p.objs ++ [o.id] }
 
-/-- `Plane.remove`.  The grid lists are edited first, then `set.remove` runs;
-`false` models its `KeyError` for an object that is not live (the grid edits stay). -/
+/-- `Plane.remove`.  The grid lists (or `_big`) are edited first, then `set.remove` runs;
+`false` models its `KeyError` for an object that is not live (the edits stay). -/
 def remove (p : Plane) (o : PObj) : Plane × Bool :=
-  let ks := getrange p (bboxOf o)
-  let g := ks.foldl (fun g k => g.erase (k, o)) p.grid
-  if o.id ∈ p.objs then ({ p with grid := g, objs := p.objs.erase o.id }, true)
-  else ({ p with grid := g }, false)
+  let p' : Plane :=
+    match cells? p (bboxOf o) with
+    | none => { p with big := p.big.erase o }
+    | some ks => { p with grid := ks.foldl (fun g k => g.erase (k, o)) p.grid }
+  if o.id ∈ p.objs then ({ p' with objs := p.objs.erase o.id }, true)
+  else (p', false)
 
 /-- The overlap test at the end of `Plane.find` (negated `continue` condition). -/
 def overlaps (o : PObj) (q : Rect) : Bool :=
@@ -98,17 +121,28 @@ def sortByKey (key : PObj → Nat) : List PObj → List PObj
   | [] => []
   | x :: xs => insertByKey key x (sortByKey key xs)
 
-/-- What the scan of the grid cells collects (`found` before it is sorted). -/
+/-- `Plane.__iter__`. -/
+def iter (p : Plane) : List PObj :=
+  p.seq.filter (fun o => o.id ∈ p.objs)
+
+/-- The candidates `find` looks at (`found` before it is sorted): the cells of the query plus `_big`, or -
+for a query over more than `MAXCELLS` cells - every live object; de-duplicated, overlap-filtered. -/
 def findScan (p : Plane) (q : Rect) : List PObj :=
-  (dedup ((getrange p q).flatMap (cell p.grid))).filter (fun o => overlaps o q)
+  let cands :=
+    match cells? p q with
+    | none => iter p
+    | some ks => ks.flatMap (cell p.grid) ++ p.big
+  (dedup cands).filter (fun o => overlaps o q)
+
+/-- Number of grid cells an operation on box `b` enumerates. -/
+def cellsTouched (p : Plane) (b : Rect) : Nat :=
+  match cells? p b with
+  | none => 0
+  | some ks => ks.length
 
 /-- `Plane.find`: the objects found in the cells, reported in insertion order. -/
 def find (p : Plane) (q : Rect) : List PObj :=
   sortByKey (rank p) (findScan p q)
-
-/-- `Plane.__iter__`. -/
-def iter (p : Plane) : List PObj :=
-  p.seq.filter (fun o => o.id ∈ p.objs)
 
 /-- Brute-force specification of `find`: live objects that properly overlap. -/
 def findSpec (p : Plane) (q : Rect) : List PObj :=
